@@ -433,7 +433,12 @@ static void MACRO_OutProcessor(void) {
             FirstOutputTag->ParamDefVals      = NULL;
             AddMacro(FirstOutputTag->Mac, FirstOutputTag->PubSect, True);
             if ((FirstOutputTag->DoGlobCopy) && (SectionStack)) {
+                /* a copy: everything that is not duplicated below is taken over as it is
+                   (use counter, expansion modifiers, label options were left uninitialised) */
+
                 GMacro             = (PMacroRec)malloc(sizeof(MacroRec));
+                *GMacro            = *FirstOutputTag->Mac;
+                GMacro->UseCounter = 0;
                 GMacro->Name       = as_strdup(FirstOutputTag->GName);
                 GMacro->ParamCount = FirstOutputTag->Mac->ParamCount;
                 GMacro->FirstLine  = DuplicateStringList(FirstOutputTag->Mac->FirstLine);
